@@ -343,7 +343,8 @@ fn gen_ids(rng: &mut Rng) -> Vec<AnyId> {
                 // not reachable through Tag::from_str: raw bytes
                 Tag::new(&[rng.below(256) as u8, b'a', rng.below(256) as u8, b'b'])
             } else {
-                Tag::new(*rng.pick(AXIS_TAGS))
+                // mostly everyday tags, sometimes the odd (but legal) ones
+                Tag::new(if rng.chance(5, 6) { AXIS_TAGS[rng.below(9)] } else { *rng.pick(AXIS_TAGS) })
             };
             if !tags.contains(&t) {
                 tags.push(t);
@@ -352,7 +353,7 @@ fn gen_ids(rng: &mut Rng) -> Vec<AnyId> {
         let n_locs = 1 + rng.below(5);
         let mut locs: Vec<Vec<f64>> = vec![];
         for _ in 0..n_locs {
-            let l: Vec<f64> = if !locs.is_empty() && rng.chance(1, 3) {
+            let l: Vec<f64> = if !locs.is_empty() && rng.chance(1, 6) {
                 let base = locs[rng.below(locs.len())].clone();
                 let at = rng.below(base.len().max(1));
                 base.iter().enumerate().map(|(i, c)| if i == at { nearby(*c, rng) } else { *c }).collect()
@@ -531,15 +532,47 @@ fn close_masters_source(dir: &Path) -> PathBuf {
     p
 }
 
+/// An axis whose (legal) tag contains a path separator: the tag goes into the kerning file name verbatim.
+fn slash_tag_source(dir: &Path) -> PathBuf {
+    let td = Path::new(TESTDATA);
+    copy_dir(&td.join("WghtVar-Regular.ufo"), &dir.join("WghtVar-Regular.ufo"));
+    copy_dir(&td.join("WghtVar-Bold.ufo"), &dir.join("WghtVar-Bold.ufo"));
+    let ds = r#"<?xml version='1.0' encoding='UTF-8'?>
+<designspace format="4.1">
+  <axes>
+    <axis tag="a/b" name="Weight" minimum="400" maximum="700" default="400"/>
+  </axes>
+  <sources>
+    <source filename="WghtVar-Regular.ufo" name="Wght Var Regular" familyname="Wght Var" stylename="Regular">
+      <location><dimension name="Weight" xvalue="400"/></location>
+    </source>
+    <source filename="WghtVar-Bold.ufo" name="Wght Var Bold" familyname="Wght Var" stylename="Bold">
+      <location><dimension name="Weight" xvalue="700"/></location>
+    </source>
+  </sources>
+</designspace>
+"#;
+    let p = dir.join("slash_tag.designspace");
+    std::fs::write(&p, ds).unwrap();
+    p
+}
+
+const DIRECTED: usize = 2;
+
 fn status_of<T>(r: std::thread::Result<Result<T, fontc::Error>>) -> (String, Option<T>) {
+    let (w, _, v) = status_msg_of(r);
+    (w, v)
+}
+
+fn status_msg_of<T>(r: std::thread::Result<Result<T, fontc::Error>>) -> (String, String, Option<T>) {
     match r {
-        Ok(Ok(v)) => ("ok".into(), Some(v)),
+        Ok(Ok(v)) => ("ok".into(), String::new(), Some(v)),
         Ok(Err(e)) => {
             let d = format!("{e:?}");
             let word: String = d.chars().take_while(|c| c.is_ascii_alphanumeric()).collect();
-            (format!("err:{word}"), None)
+            (format!("err:{word}"), d, None)
         }
-        Err(_) => ("panic".into(), None),
+        Err(_) => ("panic".into(), String::new(), None),
     }
 }
 
@@ -708,19 +741,23 @@ fn walk_files(dir: &Path, out: &mut Vec<PathBuf>) {
 
 fn emit_case(i: usize, sources: &[PathBuf]) -> Vec<S> {
     let scratch = tempfile::tempdir().expect("tempdir");
-    let source_path = if i == 0 {
-        close_masters_source(&scratch.path().join("src"))
-    } else {
-        sources[(i - 1) % sources.len()].clone()
+    let source_path = match i {
+        0 => close_masters_source(&scratch.path().join("src")),
+        1 => slash_tag_source(&scratch.path().join("src")),
+        _ => sources[(i - DIRECTED) % sources.len()].clone(),
     };
     // every other pass over the corpus builds with different flags
-    let pass = if i == 0 { 0 } else { (i - 1) / sources.len() };
+    let pass = if i < DIRECTED { 0 } else { (i - DIRECTED) / sources.len() };
     let flags = match pass % 3 {
         0 => fontc::Flags::default(),
         1 => fontc::Flags::default() | fontc::Flags::FLATTEN_COMPONENTS | fontc::Flags::KEEP_DIRECTION,
         _ => fontc::Flags::DECOMPOSE_COMPONENTS | fontc::Flags::PROPAGATE_ANCHORS,
     };
-    let label = source_path.strip_prefix(TESTDATA).unwrap_or(&source_path).to_string_lossy().to_string();
+    let label = match i {
+        0 => "directed:close_masters.designspace".to_string(),
+        1 => "directed:slash_tag.designspace".to_string(),
+        _ => source_path.strip_prefix(TESTDATA).unwrap_or(&source_path).to_string_lossy().to_string(),
+    };
     let mut fields = vec![S::k1("source", S::str(&label)), S::k1("flags", S::usize(flags.bits() as usize))];
 
     let plain = std::panic::catch_unwind(|| {
@@ -735,7 +772,7 @@ fn emit_case(i: usize, sources: &[PathBuf]) -> Vec<S> {
         let options = fontc::Options { flags, ir_dir: Some(ir_dir.clone()), ..Default::default() };
         fontc::verif_generate_font_contexts(source, &options)
     });
-    let (emit_status, ctx) = status_of(emit);
+    let (emit_status, emit_message, ctx) = status_msg_of(emit);
 
     let (Some(plain_bytes), Some((fe, be))) = (plain_bytes, ctx) else {
         let status = if plain_status == emit_status { "both-failed" } else { "differ" };
@@ -743,10 +780,30 @@ fn emit_case(i: usize, sources: &[PathBuf]) -> Vec<S> {
             S::k1("status", S::atom(status)),
             S::k1("plain_status", S::atom(plain_status)),
             S::k1("emit_status", S::atom(emit_status)),
+            // is the failure about a kerning file whose name has a directory part?
+            S::k1("emit_failed_writing_kern_file", S::bool(emit_message.contains("Unable to write") && emit_message.contains("/kern_"))),
         ]));
         return fields;
     };
     let emit_bytes: Vec<u8> = be.font.get().get().to_vec();
+    // A source whose plain builds differ among themselves (a repeatability defect, property C01) cannot
+    // witness anything about --emit-ir: find out before blaming the IR directory.
+    let mut plain_variants = 1;
+    if plain_bytes != emit_bytes {
+        let mut seen = vec![plain_bytes.clone()];
+        for _ in 0..8 {
+            let again = std::panic::catch_unwind(|| {
+                let source = fontc::Input::new(&source_path)?.create_source()?;
+                fontc::generate_font(source, fontc::Options { flags, ..Default::default() })
+            });
+            if let (_, Some(b)) = status_of(again) {
+                if !seen.contains(&b) {
+                    seen.push(b);
+                }
+            }
+        }
+        plain_variants = seen.len();
+    }
     let file_bytes = std::fs::read(fontbe::paths::Paths::target_file(&ir_dir, &BeId::Font)).unwrap_or_default();
 
     let a = audit(&ir_dir, &fe, &be);
@@ -778,6 +835,7 @@ fn emit_case(i: usize, sources: &[PathBuf]) -> Vec<S> {
     fields.push(S::kv("impl", [
         S::k1("status", S::atom("ok")),
         S::k1("fonts_equal", S::bool(plain_bytes == emit_bytes && emit_bytes == file_bytes)),
+        S::k1("plain_variants", S::usize(plain_variants)),
         S::k1("hash_plain", S::atom(fnv(&plain_bytes))),
         S::k1("hash_emit", S::atom(fnv(&emit_bytes))),
         S::k1("hash_font_file", S::atom(fnv(&file_bytes))),
